@@ -18,6 +18,15 @@ if "--avoid" in sys.argv:
         t += ("\n\nA previous round already used the following ideas — produce DIFFERENT ones (other functions, other mechanisms, "
               "other kinds of trigger: option combinations, ambient configuration/environment, state carried across calls, "
               "rarely used entry points, interactions between two call sites, platform limits):\n" + "\n".join(olds) + "\n")
+if "--plain" in sys.argv:
+    t += ("\n\nFocus for this round: PLAIN mutations. Requirement (c) is relaxed: the change does not have to need an exotic "
+          "trigger - it only has to survive the existing test-suite.  Make the kind of small, ordinary, single-site edits that "
+          "a mutation-testing tool or a hurried maintainer produces anywhere in the code paths behind the property: flipped or "
+          "off-by-one comparison, +1/-1, floor vs ceil vs round, swapped arguments or axes (x/y, row/col, src/dst), wrong sign, "
+          "min vs max, and vs or, dropped term or dropped branch, wrong default constant, early return, wrong variable reused, "
+          "skipped normalisation step.  Prefer the central functions named in the property over peripheral ones, and prefer "
+          "edits whose effect shows on ordinary, mid-sized inputs (but which the existing tests happen not to pin down).  Earlier "
+          "rounds used serialisation, caches, threads, process state, argument spellings and rare option corners: avoid those.\n")
 if "--core" in sys.argv:
     t += ("\n\nFocus for this round: the CORE LOGIC behind the property - arithmetic, rounding direction, comparisons "
           "(< vs <=), sign / axis / operand order, boundary and empty cases, index computations, tolerance handling, "
